@@ -312,6 +312,44 @@ fn prepare(op: &str, a: &[&str]) -> Result<Job, Fail> {
                 return Err(Fail::Skip);
             }
         }
+        // `mul_base_clamped` of a basepoint table of any radix: the scalar is the UNREDUCED clamped integer
+        "ed.table_clamped" => {
+            arity(a, 3)?;
+            let radix = int(a[0])?;
+            let c = ced(a[1])?;
+            let k = hx::<32>(a[2])?;
+            if ![16, 32, 64, 128, 256].contains(&radix) {
+                return Err(BADREQ);
+            }
+            let p = dec_ed(&c)?;
+            #[cfg(feature = "tables")]
+            {
+                use curve25519_dalek::edwards::{
+                    EdwardsBasepointTableRadix128, EdwardsBasepointTableRadix16,
+                    EdwardsBasepointTableRadix256, EdwardsBasepointTableRadix32,
+                    EdwardsBasepointTableRadix64,
+                };
+                use curve25519_dalek::traits::BasepointTable;
+                macro_rules! go {
+                    ($t:ty) => {{
+                        let t: Box<$t> = Box::new(<$t>::create(&p));
+                        Box::new(move || CtVal::Ed(black_box(&*t).mul_base_clamped(*black_box(&k)))) as Job
+                    }};
+                }
+                match radix {
+                    16 => go!(EdwardsBasepointTableRadix16),
+                    32 => go!(EdwardsBasepointTableRadix32),
+                    64 => go!(EdwardsBasepointTableRadix64),
+                    128 => go!(EdwardsBasepointTableRadix128),
+                    _ => go!(EdwardsBasepointTableRadix256),
+                }
+            }
+            #[cfg(not(feature = "tables"))]
+            {
+                let _ = (p, k);
+                return Err(Fail::Skip);
+            }
+        }
         "ed.table" => {
             arity(a, 3)?;
             let radix = int(a[0])?;
